@@ -78,10 +78,27 @@ def replace(d, x, kind):
     if kind == "block-comment":
         lead = len(t) - len(t.lstrip())
         inner_w = len(t) - lead - 4
-        return t[:lead + 2] + filler(d, inner_w, ["*/", "\\", "??", "/*"]) + "*/"
+        return exotic(d, t[:lead + 2] + filler(d, inner_w, ["*/", "\\", "??", "/*"]) + "*/", lead + 2, lead + 2 + inner_w)
     if kind == "block-interior":
-        return _nospace_end(filler(d, len(t), ["*/", "\\", "??", "/*"]))
+        new = _nospace_end(filler(d, len(t), ["*/", "\\", "??", "/*"]))
+        return exotic(d, new, 0, len(new) - 1)
     raise KeyError(kind)
+
+
+EXOTIC = ["\f", "\v", "\x1c", "\x1d", "\x1e", "\x85", "\u2028", "\u2029", "\u00a0", "\u00e9", "\u2192"]
+
+
+def exotic(d, text, lo, hi):
+    """comment text is opaque also for characters that some library routines take for line or word separators (form feed, vertical tab,
+    information separators, NEL, LINE/PARAGRAPH SEPARATOR, no-break space) and for non-ASCII letters: put 1..3 of them at lo <= position < hi"""
+    if hi - lo < 3 or not d.bool(0.15):
+        return text
+    out = list(text)
+    for _ in range(d.int(1, 3)):
+        k = d.int(lo, hi - 1)
+        if out[k] not in "*/\\?":
+            out[k] = d.choice(EXOTIC)
+    return "".join(out)
 
 
 def _nospace_end(s):
